@@ -25,6 +25,7 @@
 #include <set>
 #include <sstream>
 #include <string>
+#include <typeinfo>
 #include <vector>
 #include <fcntl.h>
 #include <unistd.h>
@@ -254,6 +255,22 @@ template<class Case>
 int drive(int argc, char** argv, const char* prop, Hooks<Case> hk)
 {
    Options o = parse_options(argc, argv, prop);
+   // An exception escaping a case is never silently turned into a pass (nor left to rapidcheck, which would
+   // treat it as an anonymous failure): it becomes a finding of its own.
+   {
+      auto inner = hk.run;
+      const std::string pid = prop;
+      hk.run = [inner, pid](const Case& c, const Options& opt) {
+         try {
+            return inner(c, opt);
+         }
+         catch (const std::exception& e) {
+            Outcome out;
+            out.fail(pid + ":unexpected-exception:" + sanitize(typeid(e).name()), e.what());
+            return out;
+         }
+      };
+   }
    const double t0 = now_s();
    Tally tally;
 
